@@ -224,6 +224,16 @@ def _learn(case, res):
     rec = hooks.Recorder()
 
     def after_acc(rec, args, kwargs, result):
+        # an iteration's score is an accuracy over the caller's VALIDATION labels as they stand at that moment; any other evaluation
+        # (a training accuracy for a log line, a sanity check on other data) is not an iteration
+        lab = args[0] if args else kwargs.get("labels")
+        try:
+            on_validation = [int(v) for v in np.asarray(lab).ravel()] == [int(v) for v in YV]
+        except Exception:  # noqa: BLE001
+            on_validation = False
+        if not on_validation:
+            rec.add("other_accuracy_call", 1)
+            return
         rec.add("iter", {"acc": float(result), "snap": forest_snapshot(m), "feat": _features_fp(m)})
 
     np.random.seed(case["rng_seed"])
@@ -346,10 +356,20 @@ def _prune(case, res):
                 res.violate("prune", "C17/prune/refit-not-relevant-rows", f"re-fit #{t} got a malformed training set although {len(keep)} rows were relevant")
                 return res
             continue
-        if f["new"] != keep:
+        # "pruning retains ONLY such samples": the re-fit set is a sub-multiset of the rows flagged relevant in the previous forest
+        pool = list(keep)
+        extra_rows = 0
+        for p_ in f["new"]:
+            if p_ in pool:
+                pool.remove(p_)
+            else:
+                extra_rows += 1
+        if extra_rows:
             res.violate("prune", "C17/prune/refit-not-relevant-rows",
-                        f"re-fit #{t}: training set of {len(f['new'])} rows != the {len(keep)} rows flagged relevant in the previous forest of {len(f['prev'])}")
+                        f"re-fit #{t}: {extra_rows} of its {len(f['new'])} training rows are not among the {len(keep)} rows flagged relevant in the previous forest of {len(f['prev'])}")
             return res
+        if len(f["new"]) != len(keep):
+            res.see("prune_refit_dropped_relevant_rows")
         if len(keep) < len(f["prev"]):
             discarded = True
         rest = list(original)
